@@ -175,6 +175,10 @@ def _fmt(x):
 
 
 def _refusal(e):
+    if type(e).__name__ == "TypeError" and ("non-real zoo" in str(e) or "Invalid NaN comparison" in str(e)):
+        # a literal-only sub-expression that divides by zero (0**(-1), 1/(2-2) ...) inside a condition or a protected
+        # function: degenerate generator output, the same class as the ZeroDivisionError of a literal x/0
+        return True
     return type(e).__name__ in REFUSALS or "lark" in type(e).__module__
 
 
